@@ -453,7 +453,14 @@ class GraderHistory(BFSFamily):
             configured_answers = PARTIAL_ONLY if self.configured == 'partial' else self.spec['A']
         s.author_cfg = self.make_author_cfg(configured_answers)
         s.author_snapshot = canon_author(s.author_cfg)
-        s.g = {'g1': self.cls(s.author_cfg), 'g2': self.cls(self.make_author_cfg(configured_answers, 'g2'))}
+        # the second instance is built as authors do it: from a copy of the first configuration dictionary, so that nested
+        # author objects (subgraders, sampling sets, constant / function dictionaries) are SHARED between the two graders
+        cfg2 = self.make_author_cfg(configured_answers, 'g2')
+        if not self.simple:
+            for k, v in s.author_cfg.items():
+                if k in cfg2 and k not in ('answers', 'debug') and 'extra_g2' not in self.spec:
+                    cfg2[k] = v
+        s.g = {'g1': self.cls(s.author_cfg), 'g2': self.cls(cfg2)}
         s.author_after_construct = canon_author(s.author_cfg)
         # reference: which expect values may be in force
         init = configured_answers if configured_answers is not None else NOEXPECT
